@@ -1,5 +1,5 @@
 PROP = {
-    "groups": ["pausemodel", "pausecomp", "pausedown", "pausedowncomp", "pauseprobe", "e2e-pause"],
+    "groups": ["pausemodel", "pausecomp", "pausedown", "pausedowncomp", "pauseprobe", "pausesend", "e2e-pause", "e2e-pause-resplit"],
     "timeout": 900,
     "nontrivial_floor": 0.02,
     "rule": "pausemodel: the REAL recvCheckV2 and checkStopAndPause of a real trzszTransfer (Timeout 1 s, protocol 2/3/4) are driven "
